@@ -1,4 +1,4 @@
-import KafVerif.Lemmas.GroupFns
+import KafVerif.Lemmas.GroupEffect
 /-!
 C13 — Stale or unknown group members are fenced.
 
@@ -117,6 +117,38 @@ theorem _root_.KafVerif.C13.persisted_generation_current (v : Variant) (s s' : S
     · unfold restore
       simp only [ensureLeader_gen, hcg]
       rfl
+
+/-- **C13 (generations never decrease).** In every reachable state `run init ops` and for every
+next step `op` (any request, tick, cleanup pass, store fault, metadata change): a group that is
+loaded in the coordinator before and after the step does not report a smaller generation after it.
+(A failover empties the table; what the new coordinator restores is the last persisted generation —
+`persisted_generation_current`.) -/
+theorem _root_.KafVerif.C13.generation_mono (ops : List Op) (op : Op) (g : Nat) (st st' : Group)
+    (h : lookup (run init ops).groups g = some st) (h' : lookup (step (run init ops) op).1.groups g = some st') :
+    st.gen ≤ st'.gen := by
+  obtain ⟨st0, hb, hd⟩ := step_groups (run init ops) (sorted_run ops) op g st' h'
+  have : st0 = st := by
+    cases hb with
+    | loaded hl => rw [h] at hl; cases hl; rfl
+    | restored hn _ => rw [h] at hn; cases hn
+    | fresh hn _ => rw [h] at hn; cases hn
+  subst this
+  exact derived_gen_le hd
+
+/-- a group restored from the store reports the persisted generation, and everything a request then
+does to it can only increase it -/
+theorem generation_mono_restored (ops : List Op) (op : Op) (g : Nat) (p : PGroup) (st' : Group)
+    (hn : lookup (run init ops).groups g = none) (hp : lookup (run init ops).persisted g = some p)
+    (h' : lookup (step (run init ops) op).1.groups g = some st') : p.gen ≤ st'.gen := by
+  obtain ⟨st0, hb, hd⟩ := step_groups (run init ops) (sorted_run ops) op g st' h'
+  have hle := derived_gen_le hd
+  cases hb with
+  | loaded hl => rw [hn] at hl; cases hl
+  | restored _ hp' =>
+    rw [hp] at hp'; cases hp'
+    have : (restore fixed p (run init ops).clock).gen = p.gen := by unfold restore; simp
+    omega
+  | fresh _ hp' => rw [hp] at hp'; cases hp'
 
 /-- **C13 (the commit is one critical section).** In the fixed code a request issued while an
 OffsetCommit is in flight waits for it: the outcome is the commit followed by the other request,
